@@ -25,6 +25,9 @@ type TLV struct {
 	Kids []*TLV // constructed contents
 	// RawLen, if non-nil, replaces the length octets (used for corrupt frames).
 	RawLen []byte
+	// Wrap: the children are encoded and carried as the contents of a
+	// primitive node (an OCTET STRING holding BER, as control values do).
+	Wrap bool
 }
 
 func (t *TLV) clone() *TLV {
@@ -51,7 +54,7 @@ func encLen(n int) []byte {
 // Enc returns the DER-style encoding (definite lengths, minimal).
 func (t *TLV) Enc() []byte {
 	var body []byte
-	if t.Cons {
+	if t.Cons || t.Wrap {
 		for _, k := range t.Kids {
 			body = append(body, k.Enc()...)
 		}
@@ -59,7 +62,7 @@ func (t *TLV) Enc() []byte {
 		body = t.Val
 	}
 	id := byte(t.Cls << 6)
-	if t.Cons {
+	if t.Cons && !t.Wrap {
 		id |= 0x20
 	}
 	var out []byte
@@ -123,6 +126,7 @@ func tBool(b bool) *TLV {
 	}
 	return &TLV{Cls: clsUniversal, Tag: 1, Val: []byte{v}}
 }
+func tWrap(kids ...*TLV) *TLV { return &TLV{Cls: clsUniversal, Tag: 4, Wrap: true, Kids: kids} }
 func tCtxPrim(tag int, v []byte) *TLV   { return &TLV{Cls: clsCtx, Tag: tag, Val: v} }
 func tCtxCons(tag int, k ...*TLV) *TLV  { return &TLV{Cls: clsCtx, Cons: true, Tag: tag, Kids: k} }
 func tApp(tag int, k ...*TLV) *TLV      { return &TLV{Cls: clsApp, Cons: true, Tag: tag, Kids: k} }
